@@ -363,11 +363,15 @@ def resolve(overloads, provs):
     return None
 
 
-def overload_program(overloads, calls):
-    """overloads: list of param-type tuples; calls: list of provider tuples"""
-    fs = ''
+def overload_program(overloads, calls, caller_at=None):
+    """overloads: list of param-type tuples; calls: list of provider tuples.
+    caller_at=k: the calling function is declared after the first k overloads (textually between them)"""
+    fs = []
     for i, o in enumerate(overloads):
         ps = ', '.join(f'{tname(t)} p{k}' for k, t in enumerate(o))
-        fs += f'empty over({ps}) {{ show("o{i}"); }}\n'
+        fs.append(f'empty over({ps}) {{ show("o{i}"); }}\n')
     body = ''.join(f'\n    over({", ".join(p.text for p in c)});' for c in calls)
-    return program(body, fs)
+    if caller_at is None:
+        return program(body, ''.join(fs))
+    main = 'empty @is_you() {' + LOCALS + body + '\n}\n'
+    return PRELUDE + HELPERS + ''.join(fs[:caller_at]) + main + ''.join(fs[caller_at:])
